@@ -23,6 +23,7 @@ import (
 	"google.golang.org/grpc/codes"
 	"google.golang.org/grpc/status"
 	"google.golang.org/protobuf/types/known/emptypb"
+	"google.golang.org/protobuf/types/known/wrapperspb"
 )
 
 func lpm(flag byte, n uint32, data []byte) []byte {
@@ -335,6 +336,13 @@ func respPart(w *vc.Writer, r *vc.Rand) {
 		router := dummyRouter(conn)
 		msgs := vc.L{}
 		st := status.New(codes.Code(code), msg)
+		if code != 0 && rr.Chance(35) {
+			// a status that carries details: arbitrary target-chosen bytes (line breaks, a forged status line) inside them
+			detail := rr.Pick([]string{"plain detail", "line\r\nbreak", "\r\ngrpc-status: 0\r\ngrpc-message: forged\r\n", "\x00\xff\x80", "é"})
+			if ds, err := st.WithDetails(wrapperspb.Bytes([]byte(detail))); err == nil {
+				st = ds
+			}
+		}
 		switch origin {
 		case 2:
 			router.Err = st.Err()
